@@ -383,6 +383,20 @@ def _grows_a_child_result(fn):
                 for x in ast.walk(tg):
                     if isinstance(x, ast.Name):
                         derived.add(x.id)
+    # reduce(<in-place operator>, values[, start]): the accumulator is the
+    # first value handed in unless a fresh start is given
+    for st in ast.walk(fn):
+        if isinstance(st, ast.Call) and ast.unparse(st.func).split(".")[-1] == \
+                "reduce" and len(st.args) >= 2:
+            op = ast.unparse(st.args[0]).split(".")[-1]
+            if op in ("ior", "__ior__", "iand", "__iand__", "iadd", "__iadd__"):
+                start = st.args[2] if len(st.args) > 2 else None
+                fresh = isinstance(start, ast.Call) and ast.unparse(
+                    start.func).split(".")[-1] in fresh_calls or isinstance(
+                    start, (ast.Set, ast.List, ast.Dict))
+                if not fresh and any(isinstance(x, ast.Name) and x.id in derived
+                                     for x in ast.walk(st.args[1])):
+                    return f"the first of {ast.unparse(st.args[1])}"
     for st in ast.walk(fn):
         if isinstance(st, ast.AugAssign) and isinstance(st.target, ast.Name) \
                 and st.target.id in derived and st.target.id != params[1]:
